@@ -747,3 +747,120 @@ def queue_consumer(ctx: Ctx):
                         (isinstance(t, ast.Attribute) and t.attr == cons.name and cons.parent is None):
                     host, thread = m, c
     return cons, host, thread
+
+
+@rule('C13.WORKER-NOT-DAEMON', ['C13', 'C12', 'C06'])
+def worker_not_daemon(ctx: Ctx):
+    """Task processes are not daemonic: a daemonic child is terminated by multiprocessing's exit handler as soon as the
+    main process ends (a raised LabError, the end of the script), i.e. possibly in the middle of writing its cache entry;
+    a non-daemonic one is waited for."""
+    procs = [c for c in creations(ctx) if c.kind == 'process']
+    if not procs:
+        raise AnalysisError('no process construction found in the package')
+    for c in procs:
+        d = kwarg(c.call, 'daemon', None)
+        ok = d is None or (isinstance(d, ast.Constant) and d.value in (False, None))
+        yield ctx.ob('C13.WORKER-NOT-DAEMON', ok, c.fn, c.call, f'{c.name}(...) is not daemonic',
+                     '' if ok else f'the task process is created with daemon={src(d)}: it is killed mid-save when the main process exits')
+        # no later `process.daemon = ...`
+        for n in walk_local(c.fn.node):
+            if isinstance(n, ast.Assign) and any(isinstance(t, ast.Attribute) and t.attr == 'daemon' for t in n.targets) \
+                    and not (isinstance(n.value, ast.Constant) and n.value.value is False):
+                yield ctx.ob('C13.WORKER-NOT-DAEMON', False, c.fn, n, 'no daemon flag set on the task process',
+                             f'`{src(n)}` makes the task process daemonic: it is killed mid-save when the main process exits')
+
+
+def _queue_receiver(call: ast.Call) -> bool:
+    return isinstance(call.func, ast.Attribute) and 'queue' in src(call.func.value).lower()
+
+
+def _nonblocking_get(call: ast.Call) -> bool:
+    if call.func.attr == 'get_nowait':
+        return True
+    block = kwarg(call, 'block', 0)
+    tmo = kwarg(call, 'timeout', 1)
+    if isinstance(block, ast.Constant) and block.value is False:
+        return True
+    return isinstance(tmo, ast.Constant) and tmo.value == 0 and not isinstance(tmo.value, bool)
+
+
+@rule('C05.POLLS-NONBLOCKING', ['C05', 'C11', 'C19', 'C10'])
+def polls_nonblocking(ctx: Ctx):
+    """On the coordinator's thread only one place may wait: the executor's timed get on the result queue.  Every other
+    queue poll (log records, monitor events) is non-blocking - a drain loop that waits for `the next record` keeps the
+    coordinator away from submitting ready tasks for as long as some task keeps producing records."""
+    ex = executor(ctx)
+    n = 0
+    for fn in ctx.P.all_functions():
+        if not fn.module.name.startswith(f'{PKG}.runners') and not fn.module.name.startswith(f'{PKG}.lab') and not fn.module.name.startswith(f'{PKG}.monitor'):
+            continue
+        for call in calls_in(fn.node):
+            if not (_queue_receiver(call) and call.func.attr in ('get', 'get_nowait')):
+                continue
+            n += 1
+            sanctioned = fn.qualname.startswith(ex.cls.qualname) and 'result' in src(call.func.value).lower()
+            ok = sanctioned or _nonblocking_get(call)
+            yield ctx.ob('C05.POLLS-NONBLOCKING', ok, fn, call, f'`{src(call.func)}` ' + ('is the timed wait of the executor' if sanctioned else 'does not block'),
+                         '' if ok else f'`{src(call)[:70]}` can block the coordinator although work may be ready to start (only the executor\'s result-queue '
+                         'get may wait)')
+    if n < 3:
+        raise AnalysisError(f'only {n} queue polls found (expected the result, log and monitor queues)')
+
+
+@rule('C11.QUEUES-UNBOUNDED', ['C11', 'C19', 'C10'])
+def queues_unbounded(ctx: Ctx):
+    """The queues task processes write to (results, log records, monitor events) are unbounded: a worker's blocking put()
+    on a full queue that the coordinator only drains opportunistically (the monitor queue is not drained at all when the
+    display is off) never returns, and a live-but-stuck worker is never declared dead."""
+    n = 0
+    for fn in ctx.P.all_functions():
+        if not fn.module.name.startswith(f'{PKG}.runners'):
+            continue
+        for call in calls_in(fn.node):
+            if not (isinstance(call.func, ast.Attribute) and call.func.attr in ('Queue', 'SimpleQueue', 'JoinableQueue')):
+                continue
+            n += 1
+            size = kwarg(call, 'maxsize', 0)
+            v = None
+            if size is None:
+                ok = True
+            else:
+                if isinstance(size, ast.Name) and size.id in fn.module.consts:
+                    size = fn.module.consts[size.id]
+                try:
+                    v = ast.literal_eval(size)
+                    ok = isinstance(v, int) and v <= 0
+                except Exception:
+                    ok = False
+            yield ctx.ob('C11.QUEUES-UNBOUNDED', ok, fn, call, f'`{src(call)[:50]}` is unbounded',
+                         '' if ok else f'`{src(call)[:60]}` is bounded: a task process blocks in put() once it is full')
+    if n < 3:
+        raise AnalysisError(f'only {n} queue constructions found in the runners (expected result, log and monitor queues)')
+
+
+REAPING = {'wait', 'kill', 'terminate', 'suspend', 'resume', 'send_signal'}
+
+
+@rule('C11.WHO-MAY-REAP', ['C11', 'C10'])
+def who_may_reap(ctx: Ctx):
+    """Only the executor touches the life cycle of task processes.  The monitor inspects them read-only: reaping a dead
+    child behind multiprocessing's back (psutil `wait`, os.waitpid) makes Process.is_alive() report it alive for ever, so
+    the dead-worker detection never fires; signalling it kills a task."""
+    ex = executor(ctx)
+    n = 0
+    for fn in ctx.P.all_functions():
+        n += 1
+        in_executor = fn.qualname.startswith(ex.cls.qualname)
+        monitor_side = fn.qualname.startswith(f'{PKG}.runners.process.ProcessMonitor') or fn.module.name == f'{PKG}.monitor'
+        for call in calls_in(fn.node):
+            d = dotted(call.func) or ''
+            r = ctx.P.resolve_dotted(fn.module, d) if d and not ctx.P._is_local_name(d.split('.')[0], fn) else None
+            if r in ('os.waitpid', 'os.wait', 'os.wait3', 'os.wait4', 'os.waitid', 'os.kill', 'os.killpg') and not in_executor:
+                yield ctx.ob('C11.WHO-MAY-REAP', False, fn, call, f'{r} outside the executor',
+                             f'`{src(call)[:60]}` reaps or signals a child process outside the executor')
+            elif monitor_side and isinstance(call.func, ast.Attribute) and call.func.attr in REAPING \
+                    and not any(w in src(call.func.value).lower() for w in ('thread', 'event', 'queue', 'lock', 'cond')):
+                yield ctx.ob('C11.WHO-MAY-REAP', False, fn, call, f'monitor calls .{call.func.attr}() on a process handle',
+                             f'`{src(call)[:60]}`: the monitor must only inspect task processes; waiting on one reaps it (is_alive() then stays '
+                             'True and its death is never detected), signalling one kills a task')
+    yield ctx.ob('C11.WHO-MAY-REAP', True, None, None, f'{n} functions scanned', construct='scan', path='labtech/')
